@@ -123,6 +123,35 @@ def exact_fit_case(rng, name, tab):
     return {"case": name, "ops": ops}
 
 
+RESIDUES = [0, 8, 16, 24, 32, 48, 56, 64, 72, 80, 96, 112, 120]
+
+
+def overalign_case(rng, name, tab):
+    """An over-aligned closure whose worst-case space requirement sits at a
+    power of two, pushed onto a small non-empty buffer: the new buffer has to
+    be sized for the padding needed *there* (its base residue is chosen by
+    the harness's allocator), not for the padding needed at the old position."""
+    ops = []
+    nid = 1
+    big = [i for (i, sz, al) in tab if al >= 32 and sz >= 800]
+    for _ in range(rng.randrange(1, 3)):
+        for _ in range(rng.randrange(0, 3)):
+            if rng.random() < 0.5:
+                ops.append(["pushz", rng.choice([1, 16, 128])])
+            else:
+                ops.append(["push", rng.choice([0, 2, 8]), nid, False])
+            nid += 1
+        ops.append(["push", rng.choice(big), nid, False])
+        nid += 1
+        if rng.random() < 0.5:
+            ops.append(["push", rng.choice(big), nid, False])
+            nid += 1
+        ops.append(["exec"])
+        if rng.random() < 0.5:
+            break
+    return {"case": name, "ops": ops}
+
+
 def rand_case(rng, name, nshapes):
     ops = []
     nid = 1
@@ -237,6 +266,11 @@ def run(prop, tier, seed, replay=None):
                 cases.append(exact_fit_case(rng, "qfit-%d-%d" % (seed, i), tab))
             else:
                 cases.append(rand_case(rng, "qrand-%d-%d" % (seed, i), len(tab)))
+        for i in range(200 if tier == "quick" else 4000):
+            cases.append(overalign_case(rng, "qover-%d-%d" % (seed, i), tab))
+        # where the buffers of each case land modulo 128 (the harness's allocator obeys)
+        for c in cases:
+            c["bases"] = [rng.choice(RESIDUES) for _ in range(rng.randrange(1, 5))]
     tag = "C17-%s-%d" % (tier, seed)
     tpath, lines = run_queue_diff(binary, cases, tag)
     rc, out = common.tlc("FlatTrace.tla", "FlatTrace.cfg", "flat-trace", env={"TRACE": tpath}, workers=1, heap="6g")
